@@ -410,3 +410,25 @@ M("C19", "M14-nk-cutoff-changed", (CO, "        return expiry - timedelta(days=1
 M("C19", "M15-treasury-freq-annual", (CO, "    exists_since = datetime(1970, 1, 1)\n    freq = \"QE-DEC\"", "    exists_since = datetime(1970, 1, 1)\n    freq = \"A-DEC\""), "S1.freq-alias-valid")
 E("C19", "E1-freq-constant", [(CO, "class ES(Future):", "_QUARTERLY = \"QE-DEC\"\n\n\nclass ES(Future):")])
 E("C19", "E2-vx-rename-locals", [(CO, "        this_month = datetime(year, month, 1)\n        next_month = this_month + timedelta(days=32)", "        first = datetime(year, month, 1)\n        next_month = first + timedelta(days=32)")])
+
+# ------------------------------------------------------------------ C16
+M("C16", "M1-drawdown-absolute", (ME, "        return level / level.cummax() - 1", "        return level - level.cummax()"), "S1.scale-invariant")
+M("C16", "M2-returns-diff", (ME, "        simple_returns = level.pct_change()  # fill_method=None", "        simple_returns = level.diff()  # fill_method=None"), "S1.scale-invariant")
+M("C16", "M3-log-std", (ME, "        return np.sqrt(BDAYS) * self.simple_returns().std()", "        return np.sqrt(BDAYS) * np.log(self.level()).std()"), "S1.scale-invariant")
+M("C16", "M4-level-no-validate", (ME, "        self.validate()\n        if len(np.unique(self.index.date)) != len(self.index.date):", "        if len(np.unique(self.index.date)) != len(self.index.date):"), "S2")
+M("C16", "M5-validate-strict", (ME, "        if np.any(np.any(self.values <= 0)):", "        if np.any(np.any(self.values < 0)):"), "S3.rejects-non-positive")
+M("C16", "M6-cagr-365.25", (ME, "        return self.nr_calendar_days() / 365", "        return self.nr_calendar_days() / 365.25"), "S4.formula")
+M("C16", "M7-drawdown-raw-self", (ME, "        level = self.level()\n        return level / level.cummax() - 1", "        return self / self.cummax() - 1"), "S2.no-arithmetic-on-unvalidated-self")
+M("C16", "M8-vol-bdays-260", (ME, "BDAYS = 252", "BDAYS = 260"), "S4.bdays")
+M("C16", "M9-sharpe-no-excess", (ME, "        return self.excess_cagr(risk_free) / self.volatility()", "        return self.cagr() / self.volatility()"), "S4.formula")
+M("C16", "M10-es-strict", (ME, "        tail = simple_returns[simple_returns <= value_at_risk]", "        tail = simple_returns[simple_returns < value_at_risk]"), "S4.formula")
+M("C16", "M11-calmar-sign", (ME, "        return self.excess_cagr(risk_free) / -self.max_drawdown()", "        return self.excess_cagr(risk_free) / self.max_drawdown()"), "S4.formula")
+M("C16", "M12-validate-dup-dropped", (ME, "        if self.index.has_duplicates:\n            raise ValueError(\"Duplicate indices have been found\")\n", ""), "S3.rejects-duplicate-index")
+M("C16", "M13-downside-nonpositive", (ME, "        neg_returns = simple_returns[simple_returns < 0]", "        neg_returns = simple_returns[simple_returns < 0.001]"), "S")
+M("C16", "M14-martin-abs", (ME, "        return np.sqrt(self.drawdown().pow(2).mean())", "        return np.sqrt(self.drawdown().abs().mean())"), "S4.formula")
+M("C16", "M15-cagr-first-last-swapped", (ME, "        cagr = (level.iloc[-1] / level.iloc[0]) ** (1 / years) - 1", "        cagr = (level.iloc[-1] / level.iloc[1]) ** (1 / years) - 1"), "S4.formula")
+M("C16", "M16-validate-early-return", (ME, "        if self.index.has_duplicates:\n            raise ValueError(\"Duplicate indices have been found\")", "        if len(self) < 3:\n            return\n        if self.index.has_duplicates:\n            raise ValueError(\"Duplicate indices have been found\")"), "S3.no-early-return")
+M("C16", "M17-tracking-error-level-diff", (ME, "        excess_returns = self.excess_returns(other)\n        return np.sqrt(BDAYS) * excess_returns.std()", "        excess_returns = self.level() - other.level()\n        return np.sqrt(BDAYS) * excess_returns.std()"), "S")
+M("C16", "M18-cumret-first-row", (ME, "        level_start = level.loc[level.first_valid_index()]\n        return level / level_start - 1", "        level_start = level.loc[level.first_valid_index()]\n        return level - level_start"), "S1.scale-invariant")
+E("C16", "E1-drawdown-div", (ME, "        return level / level.cummax() - 1", "        peak = level.cummax()\n        return level / peak - 1"))
+E("C16", "E2-years-local", (ME, "        cagr = (level.iloc[-1] / level.iloc[0]) ** (1 / years) - 1\n        return cagr", "        growth = level.iloc[-1] / level.iloc[0]\n        return growth ** (1 / years) - 1"))
